@@ -212,6 +212,8 @@ LOG_FN = z3.Function("log", z3.RealSort(), z3.RealSort())
 EXP_FN = z3.Function("exp", z3.RealSort(), z3.RealSort())
 SIN_FN = z3.Function("sin", z3.RealSort(), z3.RealSort())
 COS_FN = z3.Function("cos", z3.RealSort(), z3.RealSort())
+SINH_FN = z3.Function("sinh", z3.RealSort(), z3.RealSort())
+COSH_FN = z3.Function("cosh", z3.RealSort(), z3.RealSort())
 ARCTAN2_FN = z3.Function("arctan2", z3.RealSort(), z3.RealSort(), z3.RealSort())
 ARCCOS_FN = z3.Function("arccos", z3.RealSort(), z3.RealSort())
 HYPOT_FN = z3.Function("hypot", z3.RealSort(), z3.RealSort(), z3.RealSort())
